@@ -52,6 +52,10 @@ REQUIRED_THEOREMS = [
     "C10.idle_death_unobserved_is_reused_counterexample",
     "C10.f15_hazard_reachable",
     "C10.f15_hazard_blocks_forever",
+    "C10.submit_after_flag_raises",
+    "C10.no_orphan_future",
+    "C10.flag_after_clear_orphans_counterexample",
+    "C10.exitcode_message_never_raises",
 ]
 TRUSTED_EXTRA = [
     "PARTIAL BY DESIGN (DESIGN C10): process death, pipes, sentinels, signals, process start-up are MODELLED, NOT VERIFIED: "
@@ -77,8 +81,12 @@ KNOWN_SIG = "hang:worker-killed-while-sending-result"
 LAT_BOUND = 15.0  # s per call; fault-free calls take 0.02–0.7 s here, error paths 0.3–0.9 s
 TERMINATION_ERRORS = ("TerminatedWorkerError", "BrokenProcessPool")
 
-HOWS_TASK = ["SIGKILL", "SIGTERM", "SIGSEGV", "exit", "exit0"]
-HOWS_EXT = ["SIGKILL", "SIGTERM", "SIGSEGV"]
+# ways of dying, from inside the worker (os.kill(os.getpid(), n) / os._exit(code)) ...
+HOWS_TASK = ["SIGKILL", "SIGTERM", "SIGSEGV", "SIGABRT", "SIGBUS", "SIGUSR1", "SIGHUP",
+             "SIGRTMIN", "SIGRTMIN+1", "SIGRTMAX-1",  # the +k / -k real-time signals have no name in signal.Signals
+             "exit", "exit0", "exit1", "exit255"]
+# ... and from the parent (os.kill(worker_pid, n))
+HOWS_EXT = ["SIGKILL", "SIGTERM", "SIGSEGV", "SIGABRT", "SIGBUS", "SIGUSR1", "SIGHUP", "SIGRTMIN", "SIGRTMIN+1", "SIGRTMAX-1"]
 INSTANTS = ["arg-unpickle", "task-start", "mid-task", "result-pickle", "after-send"]
 CLASS_OF = {
     "arg-unpickle": ["nobytes"],
@@ -90,6 +98,24 @@ CLASS_OF = {
     "mid-send": ["midsend", "nobytes", "aftersend"],
     "timer": ["midsend", "nobytes", "aftersend"],
 }
+# `sys.exit(7)` is not a death: a SystemExit raised where the hook stands
+SYSEXIT_CLASS_OF = {"arg-unpickle": ["unpicklefail"], "task-start": ["taskexc"], "mid-task": ["taskexc"],
+                    "result-pickle": ["taskexc"]}
+
+
+def classes_of(fault):
+    if fault.get("how") == "sysexit":
+        return SYSEXIT_CLASS_OF[fault["instant"]]
+    return CLASS_OF[fault["instant"]]
+
+
+# manager-thread steps at which the thread can be held while the caller thread runs the next call's start-up
+MGR_POINTS_EARLY = ["wait_result_broken_or_wakeup:exit", "terminate_broken:enter", "flag_as_broken:enter"]
+MGR_POINTS_LATE = ["flag_as_broken:exit", "kill_workers:enter", "kill_workers:exit", "join_executor_internals:enter",
+                   "join_executor_internals:exit", "terminate_broken:exit"]
+MGR_POINTS_INCALL = ["process_result_item:enter", "process_result_item:exit", "add_call_item_to_queue:enter",
+                     "add_call_item_to_queue:exit", "wait_result_broken_or_wakeup:enter"]
+CALLER_POINTS = ["configured", "submit1", "submitted-all"]
 
 # ----------------------------------------------------------------------------------------- process hygiene
 
@@ -242,14 +268,22 @@ def gen_scenarios(rng, thorough):
     def add(family, n_jobs, managed, calls, **kw):
         scs.append(dict(id=len(scs), family=family, n_jobs=n_jobs, managed=managed, calls=calls, **kw))
 
-    reps = 10 if thorough else 3
+    reps = 8 if thorough else 2
     for _ in range(reps):
-        # A. every instant x every way of dying
-        for inst, how in itertools.product(INSTANTS, HOWS_TASK):
+        # A. every way of dying at a random instant, every instant with a random way of dying
+        #    (thorough: the full instant x way matrix)
+        pairs = ([(rng.choice(INSTANTS), how) for how in HOWS_TASK] + [(inst, rng.choice(HOWS_TASK)) for inst in INSTANTS]
+                 if not thorough else list(itertools.product(INSTANTS, HOWS_TASK)))
+        for inst, how in pairs:
             n_jobs = rng.choice([2, 3])
             add("task:" + inst, n_jobs, rng.random() < 0.5,
                 [_fault_call(rng, n_jobs, inst, how), _clean_call(rng, ooo=rng.random() < 0.3)] +
                 ([_clean_call(rng)] if rng.random() < 0.5 else []))
+        # A'. sys.exit() inside the worker: not a death (SystemExit where the hook stands)
+        for inst in SYSEXIT_CLASS_OF:
+            n_jobs = rng.choice([2, 3])
+            add("sysexit:" + inst, n_jobs, rng.random() < 0.5,
+                [_fault_call(rng, n_jobs, inst, "sysexit", k=1), _clean_call(rng), _clean_call(rng)])
         # B. faults in consecutive calls
         for _i in range(4):
             n_jobs = rng.choice([2, 3])
@@ -287,6 +321,27 @@ def gen_scenarios(rng, thorough):
         # F. fault-free, completions out of submission order
         for managed in (False, True):
             add("baseline", rng.choice([2, 3]), managed, [_clean_call(rng, lo=4, hi=7, ooo=True), _clean_call(rng, ooo=True)])
+    # S. placement of the caller thread against the manager thread: an idle worker dies, the manager thread is held at one
+    #    step of its death handling while the NEXT call starts (configure / first submit / all submits), then goes on.
+    #    Early points (flag not yet set by the code as it is): every caller point; late points: the caller ends up
+    #    waiting for the manager whatever its point, one is enough.   (x with / without a `with` block)
+    placements = [(m, c) for m in MGR_POINTS_EARLY for c in CALLER_POINTS]
+    placements += [(m, rng.choice(CALLER_POINTS)) for m in MGR_POINTS_LATE] if not thorough else \
+                  [(m, c) for m in MGR_POINTS_LATE for c in CALLER_POINTS]
+    for _rep in range(3 if thorough else 1):
+        for (mp, cp), managed in itertools.product(placements, (False, True)):
+            n_jobs = rng.choice([2, 3])
+            c1 = dict(n_tasks=rng.randint(2, 2 * n_jobs), batch_size=1)
+            c1["pre"] = dict(kind="idle", victims=rng.randint(1, n_jobs), how=rng.choice(HOWS_EXT), settle=0,
+                             sync=dict(mgr=mp, caller=cp))
+            add("sync:idle", n_jobs, managed, [_clean_call(rng), c1, _clean_call(rng)])
+        # the same against a kill issued from the call's own input generator, tasks already in flight
+        for mp in MGR_POINTS_INCALL + MGR_POINTS_EARLY[1:]:
+            n_jobs = rng.choice([2, 3])
+            c1 = dict(n_tasks=2 * n_jobs, batch_size=1)
+            c1["startup"] = dict(at_item=n_jobs, victims=1, how=rng.choice(HOWS_EXT), settle=0,
+                                 sync=dict(mgr=mp, caller=rng.choice(["submit1", "submitted-all"])))
+            add("sync:startup", n_jobs, rng.random() < 0.5, [_clean_call(rng), c1, _clean_call(rng)])
     if thorough:
         # G. F15: the worker dies while its result message is being written
         for mb, how, managed in itertools.product((0.05, 0.2, 1, 8, 32), ("SIGKILL", "SIGTERM", "exit"), (False, True)):
@@ -307,7 +362,7 @@ def model_requests(sc, qs):
     """Driver request lines whose answers' UNION is the model's prediction for the scenario."""
     per_call_alternatives = []
     for c in sc["calls"]:
-        faults = [(int(t), f["instant"]) for t, f in sorted((c.get("faults") or {}).items(), key=lambda kv: int(kv[0]))
+        faults = [(int(t), f) for t, f in sorted((c.get("faults") or {}).items(), key=lambda kv: int(kv[0]))
                   if f.get("instant")]
         pre, st = c.get("pre"), c.get("startup")
         head = ["c", str(c["n_tasks"]),
@@ -317,7 +372,7 @@ def model_requests(sc, qs):
                 str((st["at_item"] // sc["n_jobs"]) * sc["n_jobs"]) if st else "-", str(st["victims"] if st else 0),
                 "1" if st and st.get("settle", 0) >= 0.25 else "0", str(len(faults))]
         alts = []
-        for combo in itertools.product(*[CLASS_OF[i] for _, i in faults]):
+        for combo in itertools.product(*[classes_of(f) for _, f in faults]):
             alts.append(head + [x for (t, _), k in zip(faults, combo) for x in (str(t), k)])
         per_call_alternatives.append(alts)
     lines = []
@@ -348,10 +403,21 @@ def impl_trace(sc, r):
             cls = "ok" if e.get("results_correct") else "wrong"
         else:
             cls = e["outcome"][4:]
+            if cls == "SystemExit" and _raises_sysexit(sc["calls"][e["call"]]):
+                cls = "TaskError"  # the task's own exception (the model's name for it)
         toks.append(f"{cls}@{eid}")
     if not r["done"]:
-        toks.append("hang" if r["hang"] else "died")
+        if any(e.get("ev") == "abort" for e in r["events"]):
+            toks.append("manager-thread-died")
+        else:
+            toks.append("hang" if r["hang"] else "died")
     return tuple(toks)
+
+
+def _raises_sysexit(c):
+    """The call holds a task in which `sys.exit()` is raised as the TASK's exception (task body / result pickling)."""
+    return any(f.get("how") == "sysexit" and f.get("instant") in ("task-start", "mid-task", "result-pickle")
+               for f in (c.get("faults") or {}).values())
 
 
 def _family_of_group(c):
@@ -395,11 +461,19 @@ def oracle(sc, r):
         fam = last_family(i)
         return KNOWN_SIG if fam in ("mid-send", "timer") else "hang:" + fam
 
+    # the executor manager thread lives in the scenario process: an exception escaping it is a failure by itself
+    # (nothing will flag the executor or resolve the futures any more), whatever the calls then do
+    mgr_died = [e for e in ev if e.get("ev") == "thread-exception" and e["thread"].startswith("ExecutorManagerThread")]
+    for e in mgr_died[:1]:
+        bad.append((f"manager-thread-died:{e['exc']}", f"{e['thread']}: {e['exc']}: {e.get('msg')} (last fault: {last_family(n - 1)})"))
+
     failures = 0
     prev_failed = False
     for i in range(n):
         e = calls.get(i)
         if e is None:
+            if mgr_died:
+                break
             if r["hang"]:
                 bad.append((sig_hang(i), f"call {i} did not finish within the watchdog"))
             else:
@@ -408,7 +482,9 @@ def oracle(sc, r):
         failed = e["outcome"] != "ok"
         if failed:
             cls = e["outcome"][4:]
-            if cls not in TERMINATION_ERRORS:
+            if cls == "SystemExit" and _raises_sysexit(sc["calls"][i]):
+                pass  # the task's own exception, re-raised by Parallel: not a worker death (C04's business)
+            elif cls not in TERMINATION_ERRORS:
                 bad.append((f"unexpected-exception:{cls}", f"call {i} raised {cls} (last fault: {last_family(i)})"))
             failures += 1
         else:
@@ -530,6 +606,13 @@ def _explore(ctx, scs, res, label):
                 res.count("latency" + _lat_bucket(e["elapsed"]))
         if r["hang"]:
             res.count("hang")
+        for e in r["events"]:
+            if e.get("ev") == "thread-exception":
+                res.count("thread-exception=" + e["thread"].split("-")[0] + ":" + e["exc"])
+            elif e.get("ev") == "sync-reached":
+                res.count("sync-point=" + e["point"] + ("" if e["reached"] else ":not-reached"))
+            elif e.get("ev") == "sync-held":
+                res.count("sync-released-by=" + ("caller" if e["released_by_caller"] else "timeout"))
         if sc["family"] != "baseline":
             res.nontrivial.add(_canon(sc))
         res.sample(dict(case=case, trace=" ".join(tr), model=sorted(" ".join(t) for t in predicted[sc["id"]])[:6]))
